@@ -1682,9 +1682,12 @@ func TestVerifC08Twin(t *testing.T) {
 				break
 			}
 			mine++
-			if sampled < 3 && pos%7 == 3 {
+			if mine == 2 && sampled < 3 {
+				// one sample per space
 				sampled++
-				res.Sample(3, map[string]interface{}{"alphabet": sp.name, "stream": c08StreamString(stream), "cuts": len(stream) + c08Boot})
+				res.Sample(3, map[string]interface{}{"space": label, "stream": c08StreamString(stream),
+					"cut_indexes":  fmt.Sprintf("1..%d", len(stream)+c08Boot),
+					"crossed_with": "sm types, compression, request kinds, updates during save, crash states, lag points"})
 			}
 		}
 		res.Extra["streams_"+label] = mine
